@@ -160,9 +160,50 @@ for _sep in sorted(set(gen.SEPS)):
     TEMPLATES.append(((('lit', 'a'), ('sep', _sep)), '', ['a', 'a/', 'a//', 'a/b']))
 
 
+GROUP_SEP_OUTER = ['@(%s\\/b)', '@(%s/b)', '*(%s\\/)b', '@(%s|**/b)', '@(%s\\/b)c', '@(x|%s\\/b)', '+(%s\\/*)', '!(%s\\/b)', '@(%s\\/**)',
+                   '@(%s|b)/c', '@(%s)/c', '?(%s\\/)b', '@(%s\\/)', 'x/@(%s\\/b)', '@(%s//b)', '@(%s|***/b)', '@(y|%s|**/b)/c']
+GROUP_SEP_INNER = ['a', '[a]', '?', '*', 'a*']
+GROUP_SEP_NAMES = ['a/b', 'a//b', 'a/a/b', 'a/y/b', 'x/b', 'a/bc', '/bc', '/b', 'a', 'b', 'ab', 'abc', 'a/', 'a/c', 'x/c', 'aa/b', 'a/b/', 'a/x',
+                   'a/x/y', 'a/.b', '.a/b', 'a/a/', 'x/a/b', 'x/ab', 'b/c', 'y/c', 'a/b/c', 'x/y/b', 'ay/b', 'a/\n']
+
+
+def group_separator_templates(ctx):
+    """A separator written inside an extended group is a don't-care zone of the model, but one relation holds whatever it means:
+    wrapping a piece of the group in `@(...)` changes nothing (what a nested group leaves behind in the parser must not show)."""
+    idx = 0
+    for outer in GROUP_SEP_OUTER:
+        for inner in GROUP_SEP_INNER:
+            for wrap in ('@(%s)', '@(%s|%s)', '@(@(%s))'):
+                for fn in FLAGSETS[:9]:
+                    idx += 1
+                    if not ctx.mine(idx):
+                        continue
+                    plain, nested = outer % inner, outer % (wrap.replace('%s', inner))
+                    flags = flags_of(('EXTGLOB',) + fn)
+                    with ctx.case(label=(nested, fn)):
+                        try:
+                            a = [G.globmatch(n, plain, flags=flags) for n in GROUP_SEP_NAMES]
+                            b = [G.globmatch(n, nested, flags=flags) for n in GROUP_SEP_NAMES]
+                            mc = G.compile(nested, flags=flags)
+                            c = [mc.match(n) for n in GROUP_SEP_NAMES]
+                        except Exception as e:  # noqa: BLE001
+                            ctx.disagree(f'globmatch raised {type(e).__name__}', {'pattern': nested, 'plain': plain, 'flags': list(fn)})
+                            continue
+                        ctx.evals(3 * len(GROUP_SEP_NAMES))
+                        ctx.count('group_separator_templates')
+                        if a != b or b != c:
+                            diff = [n for n, x, y, z in zip(GROUP_SEP_NAMES, a, b, c) if not (x == y == z)]
+                            ctx.disagree('wrapping a piece of an extended group in `@(...)` changes what the group matches around a separator',
+                                         {'api': 'glob.globmatch', 'pattern': nested, 'equivalent': plain, 'flags': list(('EXTGLOB',) + fn),
+                                          'names_that_differ': diff[:8], 'plain_answers': [x for n, x in zip(GROUP_SEP_NAMES, a) if n in diff][:8]})
+                        if any(a) and not all(a):
+                            ctx.mark_nontrivial((plain, fn))
+
+
 def run(ctx):
     quick = ctx.quick
     idx = 0
+    group_separator_templates(ctx)
     # ---- fixed templates under every flag set -------------------------------------------------
     for ti, (toks, noesc, paths) in enumerate(TEMPLATES):
         for fi, fn in enumerate(FLAGSETS):
